@@ -842,4 +842,38 @@ theorem C20_cex_pinned_server_name :
   decide
 
 
+/-! ## the credentials influence nothing but the token -/
+
+/-- NON-INTERFERENCE.  Two password authenticators with the same allow-list but ANY user names and passwords give,
+    for every server frame sequence, the same connection attempt up to the bytes of the PLAIN token: the same
+    requests in the same order, the same calls, the same outcome.  So nothing the driver reports about an attempt —
+    the error it returns, the lines its logger prints (all of them functions of the outcome and of what the SERVER
+    sent) — can depend on the user name or the password; the only place they go is the AUTH_RESPONSE body. -/
+theorem C20_credentials_noninterference (p p' : PwAuth) (ha : p.allowed = p'.allowed) (fs : List SFrame) :
+    (handshake (some (.pw p)) fs).redact = (handshake (some (.pw p')) fs).redact := by
+  rcases fs with _ | ⟨f, fs⟩
+  · rfl
+  · cases f <;> try rfl
+    rcases fs with _ | ⟨g, gs⟩
+    · rfl
+    · cases g <;> try rfl
+      rename_i cls
+      simp only [handshake, afterStartup, AuthImpl.challenge, challenge, ha]
+      by_cases h : approve cls p'.allowed = true <;> simp [h, Trace.redact, Trace.pre, Sent.redact]
+
+/-- … and so for every sequence of connections of a session (pool / control, any hosts, any order) -/
+theorem C20_session_noninterference (p p' : PwAuth) (ha : p.allowed = p'.allowed) (ds : List Dial) :
+    (session ⟨some (.pw p), none⟩ ds).map Trace.redact = (session ⟨some (.pw p'), none⟩ ds).map Trace.redact := by
+  rw [(C20_auth_per_host _ ds).1, (C20_auth_per_host _ ds).1, List.map_map, List.map_map]
+  apply List.map_congr_left
+  intro d _
+  exact C20_credentials_noninterference p p' ha d.fs
+
+/-- non-vacuity: the tokens themselves do differ -/
+example : handshake (some (.pw ⟨[97], [49], []⟩))
+      [.supported, .authenticate (strBytes "org.apache.cassandra.auth.PasswordAuthenticator"), .authSuccess []] ≠
+    handshake (some (.pw ⟨[98], [50], []⟩))
+      [.supported, .authenticate (strBytes "org.apache.cassandra.auth.PasswordAuthenticator"), .authSuccess []] := by decide
+
+
 end C20
